@@ -155,7 +155,7 @@ From Romea Require Import SrcTie.
 From Romea.gen Require Import SrcFuns.
 
 Theorem C01_source_tie_toECEF : forall (el : ellipsoid (T:=R)) (g : geodetic (T:=R)),
-  src_toECEF ROps (g_lon g) (g_lat g) (g_alt g) (el_a el) (el_e2 el)
+  src_toECEF ROps (el_a el) (el_e2 el) (g_alt g) (g_lat g) (g_lon g)
   = (vx (toECEF ROps el g), vy (toECEF ROps el g), vz (toECEF ROps el g)).
 Proof. exact tie_toECEF. Qed.
 Print Assumptions C01_source_tie_toECEF.
